@@ -370,6 +370,10 @@ pub fn trees(max: usize, base: u8) -> Vec<(Shape, Vec<Option<u8>>)> {
                     // heap data of different lengths on the two sides: left trees hold 17 bytes (or 4097),
                     // right trees 9 (or 255): where the shapes overlap a shorter heap datum replaces a longer one
                     out.push((s.clone(), (0..n).map(|i| if mask >> i & 1 == 1 { Some(if base < 110 { 6 } else { 1 }) } else { None }).collect()));
+                }
+                if mask != 0 && n == 1 {
+                    // (single-vertex trees only: the subject never frees heap data, and every case with
+                    // kilobytes of data leaks tens of kilobytes - millions of such cases exhaust the memory)
                     out.push((s.clone(), (0..n).map(|i| if mask >> i & 1 == 1 { Some(if base < 110 { 252 } else { 250 }) } else { None }).collect()));
                 }
             }
